@@ -139,7 +139,7 @@ theorem readQuestions_agrees {cfg : Cfg} (hc : CfgOK cfg) (ha : CfgAgree cfg) (b
 
 /-! ### rdata -/
 
-theorem flatMap_congr' {α β : Type} {l : List α} {f g : α → List β} (h : ∀ x ∈ l, f x = g x) :
+theorem flatMap_congr_mem {α β : Type} {l : List α} {f g : α → List β} (h : ∀ x ∈ l, f x = g x) :
     l.flatMap f = l.flatMap g := by
   induction l with
   | nil => rfl
@@ -147,7 +147,7 @@ theorem flatMap_congr' {α β : Type} {l : List α} {f g : α → List β} (h : 
     simp only [List.flatMap_cons]
     rw [h a List.mem_cons_self, ih (fun x hx => h x (List.mem_cons_of_mem _ hx))]
 
-theorem filterMap_congr' {α β : Type} {l : List α} {f g : α → Option β} (h : ∀ x ∈ l, f x = g x) :
+theorem filterMap_congr_mem {α β : Type} {l : List α} {f g : α → Option β} (h : ∀ x ∈ l, f x = g x) :
     l.filterMap f = l.filterMap g := by
   induction l with
   | nil => rfl
@@ -157,9 +157,9 @@ theorem filterMap_congr' {α β : Type} {l : List α} {f g : α → Option β} (
 
 theorem bitmapTypesLib_eq (w : Nat) (bm : Bytes) : bitmapTypesLib w bm = bitmapTypes w bm := by
   unfold bitmapTypesLib bitmapTypes
-  apply flatMap_congr'
+  apply flatMap_congr_mem
   intro i _
-  apply filterMap_congr'
+  apply filterMap_congr_mem
   intro bit hbit
   have hb8 : bit < 8 := by simpa using hbit
   have hlt : (bm.getD i 0).toNat < 256 := UInt8.toNat_lt _
